@@ -189,11 +189,15 @@ def initial_states(D, cont, annexed_cfg, read_only):
     return out
 
 
-def run_field(events, key, D, env, cd0, ax0, counters=None):
+def run_field(events, key, D, env, cd0, ax0, counters=None, log=None,
+              nofault=False):
     """Execute the trace for field component `key` from initial state
     (cd0, ax0).  Raises Fault at the first rule that fails, InvalidConfig if a
     depth exceeds D.  `events` are dicts produced by vf.c22_parse (already
-    resolved against kernel metadata: see c22_parse.resolve)."""
+    resolved against kernel metadata: see c22_parse.resolve).
+    `log`: optional list that receives (line, operation, depth, result) for
+    every run-time halo call the trace makes for this field (used to compare
+    with the calls a real run makes); `nofault`: do not raise Fault."""
     st = Shadow(D, cd0, ax0)
     env = dict(env)
     cnt = counters if counters is not None else {}
@@ -214,7 +218,7 @@ def run_field(events, key, D, env, cd0, ax0, counters=None):
     def check_recorded(ev, why):
         bump("writes_checked" if why == "after_write"
              else "recorded_state_checks_at_guard_or_end")
-        if st.rec > st.cd:
+        if st.rec > st.cd and not nofault:
             raise Fault(
                 "recorded_cleaner_than_actual",
                 "write:%s:recorded_cleaner" % (st.last_write or "initial"),
@@ -225,11 +229,16 @@ def run_field(events, key, D, env, cd0, ax0, counters=None):
 
     def do_exchange(ev, kind):
         d = depth(ev["depth"])
+        if log is not None:
+            log.append((ev["line"], {"sync": "exchange",
+                                     "start": "exchange_start",
+                                     "finish": "exchange_finish"}[kind], d,
+                        None))
         if kind == "start":
             st.pend = d
             return
         if kind == "finish":
-            if st.pend is None or st.pend < d:
+            if (st.pend is None or st.pend < d) and not nofault:
                 raise Fault("async_finish_without_start",
                             "async:finish_without_start", ev,
                             "halo_exchange_finish(depth=%d) runs but no "
@@ -254,6 +263,8 @@ def run_field(events, key, D, env, cd0, ax0, counters=None):
                 else:
                     check_recorded(ev, "guard")
                 d = depth(ev["depth"])
+                if log is not None:
+                    log.append((ev["line"], "is_dirty", d, st.rec < d))
                 if st.rec < d:      # is_dirty(depth=d)
                     bump("guards_taken")
                     run(ev["body"])
@@ -265,9 +276,14 @@ def run_field(events, key, D, env, cd0, ax0, counters=None):
             elif t == "set_dirty":
                 if ev["field"] == key:
                     st.rec = 0
+                    if log is not None:
+                        log.append((ev["line"], "set_dirty", None, None))
             elif t == "set_clean":
                 if ev["field"] == key:
                     st.rec = max(st.rec, depth(ev["depth"]))
+                    if log is not None:
+                        log.append((ev["line"], "set_clean",
+                                    depth(ev["depth"]), None))
             elif t == "setters_end":
                 if st.unchecked_write:
                     st.unchecked_write = False
@@ -282,7 +298,7 @@ def run_field(events, key, D, env, cd0, ax0, counters=None):
 
     def need(ev, acc, what, ok, required, code):
         bump("reads_checked")
-        if not ok:
+        if not ok and not nofault:
             raise Fault(
                 "dirty_halo_read", code, ev,
                 "%s of %s needs %s but state is clean depth %d, annexed %s"
@@ -335,7 +351,7 @@ def run_field(events, key, D, env, cd0, ax0, counters=None):
                 acc, c = a["access"], a["cont"]
                 if acc == "READ":
                     continue
-                if st.pend is not None:
+                if st.pend is not None and not nofault:
                     raise Fault("write_during_async_exchange",
                                 "async:write_while_pending", ev,
                                 "%s written while an asynchronous halo "
@@ -373,7 +389,7 @@ def run_field(events, key, D, env, cd0, ax0, counters=None):
                              "dofread:dof_halo:halo_dirty")
             for a in accs:
                 if a["access"] in ("WRITE", "READWRITE"):
-                    if st.pend is not None:
+                    if st.pend is not None and not nofault:
                         raise Fault("write_during_async_exchange",
                                     "async:write_while_pending", ev,
                                     "%s written while an asynchronous halo "
@@ -392,7 +408,7 @@ def run_field(events, key, D, env, cd0, ax0, counters=None):
         end = {"t": "end", "line": None, "text": "<end of invoke>"}
         st.unchecked_write = False
         check_recorded(end, "end_of_invoke")
-        if st.pend is not None:
+        if st.pend is not None and not nofault:
             raise Fault("async_start_without_finish",
                         "async:start_without_finish", end,
                         "halo_exchange_start ran for %s but its finish did "
